@@ -65,6 +65,8 @@ def run(rep):
         rep.evaluations += 1
         if np.abs(w).max() >= md.N:
             rep.nontrivial += 1
+        if b < n:
+            gen.perturb(traj, rng)
         msd = np.asarray(traj.mean_squared_displacement())
         bad = None
         dist = np.asarray(traj.distances_from_base_position())
